@@ -418,7 +418,10 @@ class FitOutputManager:
         if parameter_name == "mixing_matrix":
             ax[i].set_title(parameter_name + " " + model.features[index])
         elif parameter_name == "zeta":
-            ax[i].set_title(parameter_name + " " + "event" + " " + str(index + 1))
+            # with a single event `zeta` is saved in one file without index
+            ax[i].set_title(
+                parameter_name + " " + "event" + " " + str((index or 0) + 1)
+            )
         elif parameter_name.startswith("sourcewise"):
             ax[i].set_title(
                 parameter_name.replace("sourcewise_", "")
